@@ -32,85 +32,121 @@ func ruleTDELROWS(p *Program, r *Reporter) {
 		r.Anchor(id, "transaction.Transaction.DeletedRows")
 		return
 	}
-	n := 0
-	for _, fn := range p.srcFuncs {
-		if pkgOf(fn) != "database/transaction" {
-			continue
-		}
-		for _, b := range fn.Blocks {
-			for _, ins := range b.Instrs {
-				c, ok := ins.(*ssa.Call)
-				if !ok || !c.Call.IsInvoke() || c.Call.Method.Name() != "List" || !isNamed(c.Call.Value.Type(), repoMod+"/database", "Database") {
-					continue
-				}
-				n++
-				// the rows value
-				var rows ssa.Value
-				if refs := c.Referrers(); refs != nil {
-					for _, ref := range *refs {
-						if ex, ok := ref.(*ssa.Extract); ok && ex.Index == 0 {
-							rows = ex
-						}
+	// functions of the package that read Database.List (directly or through private helpers),
+	// taken at the outermost level: a private helper is judged through its caller
+	reachesList := func(g *ssa.Function) bool {
+		for _, h := range p.Reach(g) {
+			for _, b := range h.Blocks {
+				for _, ins := range b.Instrs {
+					if c, ok := ins.(*ssa.Call); ok && c.Call.IsInvoke() && c.Call.Method.Name() == "List" && isNamed(c.Call.Value.Type(), repoMod+"/database", "Database") {
+						return true
 					}
 				}
-				// a delete(rows, k) with k ranging over t.DeletedRows
-				var filter *ssa.Call
-				for _, b2 := range fn.Blocks {
-					for _, i2 := range b2.Instrs {
-						d, ok := i2.(*ssa.Call)
-						if !ok {
-							continue
-						}
-						bi, ok := d.Call.Value.(*ssa.Builtin)
-						if !ok || bi.Name() != "delete" || d.Call.Args[0] != rows {
-							continue
-						}
-						if ex, ok := d.Call.Args[1].(*ssa.Extract); ok {
-							if nx, ok := ex.Tuple.(*ssa.Next); ok {
-								if rg, ok := nx.Iter.(*ssa.Range); ok && loadOfField(rg.X, del) {
-									filter = d
-								}
-							}
-						}
-					}
-				}
-				ok2 := false
-				why := "the rows returned by Database.List are never filtered by Transaction.DeletedRows: a row deleted earlier in the same transaction is still selected / updated / counted by later operations"
-				if filter != nil && rows != nil {
-					// every successful return of rows is reached only after the filter loop was entered:
-					// the loop header (block holding the Next) dominates the return
-					header := filter.Call.Args[1].(*ssa.Extract).Tuple.(*ssa.Next).Block()
-					ok2 = true
-					for _, b3 := range fn.Blocks {
-						ret, isRet := b3.Instrs[len(b3.Instrs)-1].(*ssa.Return)
-						if !isRet || isRecoverBlock(b3) {
-							continue
-						}
-						// any successful return of a row set (the listed rows or another map,
-						// e.g. one served from the transaction cache) must come after the filter
-						success := false
-						if len(ret.Results) >= 2 {
-							if k, isC := retValue(ret, len(ret.Results)-1).(*ssa.Const); isC && k.IsNil() {
-								if k0, isC0 := retValue(ret, 0).(*ssa.Const); !(isC0 && k0.IsNil()) {
-									success = true
-								}
-							}
-						}
-						if (retValue(ret, 0) == rows || success) && !header.Dominates(b3) {
-							ok2 = false
-							why = "a successful return of rows is not preceded by the DeletedRows filter: a row deleted earlier in the transaction is still handed to later operations"
-						}
-					}
-					if ok2 {
-						why = "rows deleted earlier in the transaction are removed from what Database.List returned before the rows are used"
-					}
-				}
-				r.Ob(id, funcName(fn), "Database.List overlaid with DeletedRows", c.Pos(), ok2, true, why)
 			}
 		}
+		return false
+	}
+	var cands []*ssa.Function
+	for _, fn := range p.srcFuncs {
+		if pkgOf(fn) == "database/transaction" && fn.Parent() == nil && reachesList(fn) {
+			cands = append(cands, fn)
+		}
+	}
+	// keep those that return a row map and are not private helpers of another candidate
+	isRowMap := func(t types.Type) bool {
+		m, ok := t.Underlying().(*types.Map)
+		return ok && isNamed(m.Elem(), repoMod+"/model", "Model")
+	}
+	var entries []*ssa.Function
+	for _, fn := range cands {
+		res := fn.Signature.Results()
+		if res.Len() < 1 || !isRowMap(res.At(0).Type()) {
+			continue
+		}
+		private := false
+		for _, other := range cands {
+			if other != fn && p.PrivateRegion(other)[fn] {
+				private = true
+			}
+		}
+		if !private {
+			entries = append(entries, fn)
+		}
+	}
+	// a filter event in fn for the map m: the inline loop `for k := range t.DeletedRows { delete(m, k) }`,
+	// or a call of a helper that runs that loop on the parameter m is passed as
+	filterLoopOn := func(g *ssa.Function, m ssa.Value) *ssa.BasicBlock {
+		for _, b2 := range g.Blocks {
+			for _, i2 := range b2.Instrs {
+				d, ok := i2.(*ssa.Call)
+				if !ok {
+					continue
+				}
+				bi, ok := d.Call.Value.(*ssa.Builtin)
+				if !ok || bi.Name() != "delete" || len(d.Call.Args) != 2 || d.Call.Args[0] != m {
+					continue
+				}
+				if ex, ok := d.Call.Args[1].(*ssa.Extract); ok {
+					if nx, ok := ex.Tuple.(*ssa.Next); ok {
+						if rg, ok := nx.Iter.(*ssa.Range); ok && loadOfField(rg.X, del) {
+							return nx.Block()
+						}
+					}
+				}
+			}
+		}
+		return nil
+	}
+	n := 0
+	for _, fn := range entries {
+		n++
+		ok2 := true
+		why := "rows deleted earlier in the transaction are removed from every row set this function returns"
+		for _, b3 := range fn.Blocks {
+			ret, isRet := b3.Instrs[len(b3.Instrs)-1].(*ssa.Return)
+			if !isRet || isRecoverBlock(b3) || len(ret.Results) < 2 {
+				continue
+			}
+			if k, isC := retValue(ret, len(ret.Results)-1).(*ssa.Const); !isC || !k.IsNil() {
+				continue
+			}
+			m := retValue(ret, 0)
+			if k0, isC0 := m.(*ssa.Const); isC0 && k0.IsNil() {
+				continue
+			}
+			// a filter event on m that dominates this return
+			filtered := false
+			if h := filterLoopOn(fn, m); h != nil && h.Dominates(b3) {
+				filtered = true
+			}
+			for _, b2 := range fn.Blocks {
+				for _, i2 := range b2.Instrs {
+					c, ok := i2.(*ssa.Call)
+					if !ok {
+						continue
+					}
+					h := c.Call.StaticCallee()
+					if h == nil || pkgOf(h) != pkgOf(fn) || len(h.Blocks) == 0 {
+						continue
+					}
+					for ai, a := range c.Call.Args {
+						if a == m && ai < len(h.Params) && filterLoopOn(h, h.Params[ai]) != nil {
+							if b2.Dominates(b3) && (b2 != b3 || true) {
+								filtered = true
+							}
+						}
+					}
+				}
+			}
+			if !filtered {
+				ok2 = false
+				why = "a successful return of rows is not preceded by the DeletedRows filter: a row deleted earlier in the transaction is still handed to later operations"
+			}
+		}
+		r.Ob(id, funcName(fn), "Database.List overlaid with DeletedRows", fn.Pos(), ok2, true, why)
 	}
 	if n == 0 {
-		r.Anchor(id, "no Database.List call in package transaction")
+		r.Anchor(id, "no function of package transaction returns rows read through Database.List")
 	}
 }
 
